@@ -221,6 +221,16 @@ def worker(task: Tuple) -> Dict[str, Any]:
                 "table_type": type(cls._known).__name__, "setdefault_atomic": atomic, "functions": [], "program": []}
     tracebmc.annotate(traces, codes, atomic, cls)
     res = tracebmc.search(traces, threads, timeout_ms=120000)
+    if ex.extra_state_written and threads == 2:
+        # the constructor also writes plain class attributes (state shared between threads that the
+        # single-table step system does not have): besides the model, every one-preemption schedule of
+        # two threads through the real constructor is swept -- an enumeration, NOT a solver verdict
+        res["extra_shared_state"] = sorted(ex.extra_state_written)
+        hit = preemption_sweep(cname, store_lines) if res["result"] != "sat" else None
+        res["extra_shared_state_sweep"] = "a schedule replays" if hit else "no one-preemption schedule shows a difference"
+        if hit is not None:
+            res.update(result="sat", schedule=hit[0], rets="different objects", table="one of them", trace=[])
+            res["fallback_replay"] = hit[1]
     res["class"] = cname
     res["table_type"] = type(cls._known).__name__
     res["setdefault_atomic"] = atomic
@@ -244,7 +254,8 @@ def worker(task: Tuple) -> Dict[str, Any]:
             raise
         res["ast_model"] = f"not applicable ({str(e)[:120]})"
     if res["result"] == "sat":
-        res["replay"] = replay(cname, threads, res["schedule"], res["trace"], store_lines, code_spec)
+        res["replay"] = res.pop("fallback_replay", None) or \
+            replay(cname, threads, res["schedule"], res["trace"], store_lines, code_spec)
     return res
 
 
